@@ -325,7 +325,12 @@ impl FarmWorld {
             }
             18 => ('O', format!("updateEnergy {}", u)),
             19 => {
-                if let Some((nn, a)) = self.pick_pay(rng, &s, u, &[]) {
+                // quotes of RECEIVED positions (recorded owner != holder) matter most: the view must use the
+                // user argument, the execution uses the caller (seeded change C20-b) — pick one when there is one
+                let foreign: Vec<u64> = s.users[(u - 1) as usize].hold.keys().filter(|n| s.toks.get(n).map(|a| a.owner != u).unwrap_or(false)).cloned().collect();
+                let own: Vec<u64> = s.users[(u - 1) as usize].hold.keys().filter(|n| !foreign.contains(n)).cloned().collect();
+                let exclude: Vec<u64> = if !foreign.is_empty() && rng.chance(2, 3) { own } else { vec![] };
+                if let Some((nn, a)) = self.pick_pay(rng, &s, u, &exclude) {
                     if rng.chance(2, 3) {
                         // quote, then execute the very same claim / exit (C20: quote = execution)
                         let t = if rng.chance(1, 2) { format!("claim {} - {}:{}", u, nn, a) } else { format!("exit {} - {}:{}", u, nn, a) };
